@@ -339,6 +339,8 @@ class _Parser(config_parse_common._Parser):
                                                                  'timestamp_end')
             v3_pkt_disc_er_counter_snap_ft_node = self._conv_ft_node_if_exists(v2_pkt_ctx_ft_fields_node,
                                                                                'events_discarded')
+            v3_pkt_seq_num_ft_node = self._conv_ft_node_if_exists(v2_pkt_ctx_ft_fields_node,
+                                                                  'packet_seq_num')
             v3_ert_id_ft_node = self._conv_ft_node_if_exists(v2_er_header_ft_fields_node, 'id')
             v3_er_ts_ft_node = self._conv_ft_node_if_exists(v2_er_header_ft_fields_node,
                                                             'timestamp')
@@ -354,6 +356,8 @@ class _Parser(config_parse_common._Parser):
             self._set_v3_feature_ft_if_exists(v3_pkt_node,
                                               'discarded-event-records-counter-snapshot-field-type',
                                               v3_pkt_disc_er_counter_snap_ft_node)
+            self._set_v3_feature_ft_if_exists(v3_pkt_node, 'sequence-number-field-type',
+                                              v3_pkt_seq_num_ft_node)
             self._set_v3_feature_ft_if_exists(v3_er_node, 'type-id-field-type', v3_ert_id_ft_node)
             self._set_v3_feature_ft_if_exists(v3_er_node, 'timestamp-field-type', v3_er_ts_ft_node)
             v3_features_node['packet'] = v3_pkt_node
